@@ -166,7 +166,7 @@ impl Check for Controller {
                 Step::Advance { n } => {
                     w.advance(*n);
                     m.now += n;
-                    st.ledgers += *n as u64;
+                    st.ledgers += *n as u64; st.hit("clock.advance"); if *n > 100_000 { st.hit("clock.jump"); }
                 }
                 Step::Schedule { k, delay_over_min, proposer, signed } => {
                     let d = (m.min as i64 + delay_over_min).max(0) as u32;
